@@ -8,7 +8,7 @@ import impl
 
 TABLES = []
 LAKE_TARGETS = ["Moclo.Props.C06"]
-THEOREMS = ["Moclo.C06." + t for t in ["inv_init", "inv_query", "inv_run", "history_independent",
+THEOREMS = ["Moclo.C06." + t for t in ["characterize_independent", "characterize_after_history", "inv_init", "inv_query", "inv_run", "history_independent",
                                        "verdicts_independent", "verdicts_fresh", "inherited_cache_counterexample"]]
 # reductions under which a failing case stays a case of this property (see shrink.py)
 SHRINK = {"lists": ["history"]}
@@ -213,7 +213,24 @@ def check_case(ctx, case):
     ctx.note("history-len={}".format(min(len(hist), 6)))
     ctx.case(case, nontrivial=len({json.dumps(r) for r in refs}) > 1)
     if any(isinstance(r, list) and r[0] == "char" for r in refs):
-        return          # which candidate comes first is not a matter of the model's per-class cache
+        # model (`characterize_after_history`): whatever came before, the answer is the first accepting candidate —
+        # the pure `characterize` of the typing model on the candidates' live structures
+        def char_fields():
+            out = {}
+            for ref in refs:
+                if isinstance(ref, list) and ref[0] == "char":
+                    fam = resolve(classes, ref)
+                    cands = list(fam.__subclasses__()) + ([] if impl.isabstract(fam) else [fam])
+                    out[json.dumps(ref)] = ["|".join("^".join(impl.cls_fields(c)) for c in cands),
+                                            [c.__name__ for c in cands]]
+            return out
+        cf = in_child(char_fields)
+        for (ref, word, topo), g in zip(hist, got):
+            if isinstance(ref, list) and ref[0] == "char" and topo == "C" and g and g[0] == "char":
+                line, names = cf[json.dumps(ref)]
+                ctx.op(("RAW", "\t".join(["CHAR", line, word])), case,
+                       reply="none" if g[1] == "none" else (str(names.index(g[1])) if g[1] in names else "x"))
+        return
     # model: one class table per history (dynamic subclasses share their base's structure)
     table, idx = [], []
 
